@@ -92,6 +92,8 @@ def _child_job(job):
     import numpy as np
     import pandas as pd
     kind = job["kind"]
+    if kind == "history":
+        return _history_child(job["spec"])
     if kind == "parse":
         from holopy.scattering import Tmatrix
         s = _mk_scatterer(job["scat"])
@@ -801,6 +803,106 @@ def stage_symmetry(ctx):
     ctx.notes.append("symmetry stage, worst relative differences: " + json.dumps({k: float("%.3g" % v) for k, v in worst.items()}))
 
 
+def _history_child(spec):
+    """runs inside a forked child: theory OBJECTS kept alive and used alternately on different particles (a bare Tmatrix,
+    a second Tmatrix, a Lens around a third), then detectors of >= 1024 points; returns plain lists"""
+    import numpy as np
+    import warnings as _w
+    _w.simplefilter("ignore")
+    from holopy.scattering import Mie, Tmatrix, calc_field
+    from holopy.scattering.theory import Lens
+    from holopy.core.metadata import detector_points
+    kw = dict(medium_index=NMED, illum_wavelen=WAVELEN, illum_polarization=(1, 0))
+    pts = np.array(spec["points"])
+    det = detector_points(x=pts[:, 0], y=pts[:, 1], z=pts[:, 2])
+    objs = {"A": Tmatrix(), "B": Tmatrix(), "L": Lens(0.7, Tmatrix(), quad_npts_theta=8, quad_npts_phi=10)}
+    out = []
+    for who, pi in spec["steps"]:
+        sc = _mk_scatterer(spec["particles"][pi])
+        f = np.asarray(calc_field(det, sc, theory=objs[who], **kw).values)
+        out.append([who, pi, _carr(f)])
+    # reference values from objects that have computed nothing else
+    refs = {}
+    for who, pi in sorted(set((w, p) for w, p in spec["steps"])):
+        th = Tmatrix() if who in "AB" else Lens(0.7, Tmatrix(), quad_npts_theta=8, quad_npts_phi=10)
+        refs["%s%d" % (who, pi)] = _carr(np.asarray(calc_field(det, _mk_scatterer(spec["particles"][pi]), theory=th, **kw).values))
+    # large detectors: sphere vs far-field Mie, Spheroid(a,a) vs Sphere, and a few of the points alone
+    big = []
+    for b in spec["big"]:
+        bp = np.array(b["points"])
+        bdet = detector_points(x=bp[:, 0], y=bp[:, 1], z=bp[:, 2])
+        sph = _mk_scatterer(b["sphere"])
+        ft = np.asarray(calc_field(bdet, sph, theory=Tmatrix(), **kw).values)
+        fm = np.asarray(calc_field(bdet, sph, theory=Mie(False, False), **kw).values)
+        fa = np.asarray(calc_field(bdet, _mk_scatterer(b["spheroid"]), theory=Tmatrix(), **kw).values)
+        idx = b["alone"]
+        sdet = detector_points(x=bp[idx, 0], y=bp[idx, 1], z=bp[idx, 2])
+        fs = np.asarray(calc_field(sdet, sph, theory=Tmatrix(), **kw).values)
+        sc = float(np.abs(fm).max())
+        big.append(dict(vs_mie=float(np.abs(ft - fm).max() / sc), aa_vs_sphere=float(np.abs(fa - ft).max() / sc),
+                        batch=float(np.abs(ft[idx] - fs).max() / sc), npoints=int(len(bp))))
+    return dict(steps=out, refs=refs, big=big)
+
+
+def stage_history(ctx):
+    """history independence and batch independence, in one child process"""
+    rng = ctx.subrng("history")
+    particles = [dict(kind="sphere", n=[1.55, 0.0], r=0.45, center=[0.3, 0.2, 6.0]),
+                 dict(kind="spheroid", n=[1.5, 0.0], r=[0.3, 0.5], rotation=[0.0, 0.7, 1.1], center=[0.1, -0.2, 7.0]),
+                 dict(kind="cylinder", n=[1.5, 0.01], d=0.5, h=0.8, rotation=[0.0, 1.1, 0.4], center=[0.0, 0.3, 6.5]),
+                 dict(kind="spheroid", n=[1.55, 0.0], r=[0.45, 0.45], rotation=[0.0, 0.4, 0.2], center=[0.3, 0.2, 6.0])]
+    steps = [["A", 0], ["B", 1], ["A", 0], ["L", 1], ["A", 2], ["B", 0], ["L", 0], ["A", 1], ["B", 1], ["L", 1], ["A", 0], ["B", 3]]
+    extra = [[rng.choice("ABL"), rng.randrange(4)] for _ in range(ctx.n(8, 30))]
+    pts = [[rng.uniform(-3, 3), rng.uniform(-3, 3), 0.0] for _ in range(5)]
+    big = []
+    for k in range(ctx.n(2, 5)):
+        npt = rng.choice([1024, 1100, 1600])
+        x = rng.uniform(6.0, 14.0)
+        r = x / K
+        c = [rng.uniform(-1, 1), rng.uniform(-1, 1), rng.uniform(6.0, 9.0)]
+        bp = [[rng.uniform(-5, 5), rng.uniform(-5, 5), 0.0] for _ in range(npt)]
+        big.append(dict(points=bp, sphere=dict(kind="sphere", n=[1.5, 0.0], r=r, center=c),
+                        spheroid=dict(kind="spheroid", n=[1.5, 0.0], r=[r, r], rotation=[0.0, 0.3, 0.5], center=c),
+                        alone=sorted(rng.sample(range(npt), 6)), x=x))
+    spec = dict(particles=particles, steps=steps + extra, points=pts, big=big)
+    small = dict(particles=particles, steps=spec["steps"], points=pts)
+    r = run_jobs("hist", [dict(kind="history", spec=spec)], nproc=1, timeout=ctx.n(600, 1500))[0]
+    oc = outcome(r)
+    if oc == "died":
+        ctx.violation("stop:history", "the interpreter ended during a sequence of T-matrix calculations on re-used theory objects",
+                      dict(kind="history", spec=small, result={k: v for k, v in r.items() if k != "ok"}))
+        return
+    if oc != "returned":
+        ctx.violation("history:" + oc.split(":")[0], "a sequence of T-matrix calculations on re-used theory objects did not return: %s %s"
+                      % (oc, str(r.get("msg", ""))[:200]), dict(kind="history", spec=small, outcome=oc), nofail=True)
+        return
+    res = r["ok"]
+    for i, (who, pi, val) in enumerate(res["steps"]):
+        ctx.explored += 1
+        ctx.count("history:step:%s" % who)
+        ctx.nontriv(("history", who, pi, i))
+        d = rel_diff(val, res["refs"]["%s%d" % (who, pi)])
+        if d > 1e-9:
+            ctx.violation("history:%s" % ("tmatrix" if who in "AB" else "lens-tmatrix"),
+                          "a Tmatrix theory object kept alive and used alternately with others returns, at step %d (%s on particle %d), a "
+                          "field that differs from a fresh object's by %.3g (relative)" % (i, who, pi, d),
+                          dict(kind="history", spec=small, step=i, rel_diff=d))
+            break
+    for b, r in zip(big, res["big"]):
+        ctx.explored += 1
+        ctx.count("history:large-detector")
+        meta = dict(kind="large-detector", x=b["x"], npoints=r["npoints"], sphere=b["sphere"], result=r)
+        if r["vs_mie"] > SPHERE_TOL:
+            ctx.violation("azimuth:field-vs-mie:large-detector", "sphere, size parameter %.3g, %d detector points: T-matrix differs from "
+                          "far-field Lorenz-Mie by %.3g (tolerance %g)" % (b["x"], r["npoints"], r["vs_mie"], SPHERE_TOL), meta)
+        if r["aa_vs_sphere"] > 1e-6:
+            ctx.violation("sphere:spheroid-aa-vs-sphere:large-detector", "Spheroid(a,a) differs from Sphere(a) by %.3g on %d detector points"
+                          % (r["aa_vs_sphere"], r["npoints"]), meta)
+        if r["batch"] > 1e-9:
+            ctx.violation("batch:tmatrix", "T-matrix field values of a sphere depend on how many detector points are computed in one call "
+                          "(%d points vs 6 of them alone: %.3g relative)" % (r["npoints"], r["batch"]), meta)
+
+
 def stage_survive(ctx):
     """S: ANY real Euler angles, large sizes, extreme aspect ratios, odd detector angles: the call
     returns finite values or raises a Python exception; the interpreter never dies"""
@@ -933,6 +1035,7 @@ def run(ctx):
     guarded(ctx, "packing", stage_packing, ctx)
     guarded(ctx, "sphere", stage_sphere, ctx)
     guarded(ctx, "symmetry", stage_symmetry, ctx)
+    guarded(ctx, "history", stage_history, ctx)
     guarded(ctx, "survive", stage_survive, ctx)
 
 
